@@ -466,6 +466,10 @@ func (ex *Exec) loopHead(fr *Frame, li *loopInfo, st *State) {
 		li.variant = ex.vc.define("variant", ex.vc.tc.sortOf(v.T), v.S)
 	}
 	li.headSt = st.clone()
+	if fr.headSts == nil {
+		fr.headSts = map[int]*State{}
+	}
+	fr.headSts[li.number] = li.headSt
 }
 
 func (ex *Exec) loopBack(fr *Frame, li *loopInfo, st *State, from *ssa.BasicBlock) {
